@@ -10,7 +10,8 @@ ASSUMPTIONS = ASSUME_SESSION + ["the traceback goes to stderr through sys.except
 RULE = ("[thorough tier adds the small-scope exhaustive enumeration of harness/gen/exhaustive.py: every loop program with a <= 2-action and a <= 1-action handler over a 10-action alphabet, 3 663 programs] loop-mode programs with 0..4 handlers per class, handlers shared between classes, raising subsets, with and without an application ExceptionSignal handler; "
         "generic loop/app sessions; oracle: per dispatched signal the handler sequence is a prefix of the registered list in registration order with the registered data "
         "(complete unless the run was stopped or the dispatch is still in progress), kill path = exit status 1 + blank line + stack dump + traceback; non-trivial = a "
-        "signal with >= 2 handlers dispatched or a handler raised")
+        "signal with >= 2 handlers dispatched or a handler raised"
+        " Later rounds: one callback registered twice; handlers that are bound methods of unkept objects; handlers registered while the loop runs (adapter-only action, oracle-judged); application handlers for InputReadySignal registered before and after the InputHandler's own (every answered line reaches each); exceptions attributed to ideal loop levels reconstructed from the API log.")
 
 
 def gen_c02(rnd, sid):
